@@ -23,7 +23,7 @@ PROP = "C02"
 
 EVIDENCE = {
     "rule": "one evaluation = one scenario document (mesh, region flags, field kind, form, integrand seed, pool / thread schedules, fault); non-trivial = at least one parallel evaluation ran under a simulated pool with >1 job or under a thread schedule with >= 2 context switches, or a worker fault fired; distinct = distinct (field kind, form kind, flags, pool configuration or schedule digest)",
-    "probes_expected": ["pool:njobs>1", "pool:fallback-np-einsum", "threads:switches", "fault:pool_job", "fault:thread_body", "uniform-broadcast", "absent-block", "out-reuse", "values-passthrough", "mode3", "hess-form", "form-after-region-reload", "shared-test-field-forms"],
+    "probes_expected": ["pool:njobs>1", "pool:fallback-np-einsum", "threads:switches", "fault:pool_job", "fault:thread_body", "uniform-broadcast", "absent-block", "out-reuse", "values-passthrough", "mode3", "hess-form", "form-after-region-reload", "shared-test-field-forms", "assembled-again-after-failure"],
     "components": {
         "real": ["felupe.assembly (all of it)", "einsumt chunking logic", "numpy einsum", "scipy.sparse"],
         "simulated": ["einsumt thread pool (SimPool: size knob, seeded job order, failing job)", "threading.Thread in the expression API (SimThreads: baton passing at sys.monitoring LINE / STORE_SUBSCR events)"],
@@ -293,6 +293,11 @@ def run_array(doc, log):
                 raise Violation(PROP, "worker-fault", f"a pool job failed but assemble(parallel=True) returned normally ({'correct' if ok else 'WRONG'} result)", site="IntegralForm.assemble.parallel", fault="pool_job")
             if not isinstance(exc, SimWorkerError):
                 raise Violation(PROP, "worker-fault", f"pool failure surfaced as {type(exc).__name__}: {exc}", site="IntegralForm.assemble.parallel", fault="pool_job")
+            # after the failure the same form object, with a healthy pool, gives the sum
+            with SimPool(processes=p["n"], rng=Streams(p["seed"] + 1)["sched"], order=p["order"]):
+                again = dense(form.assemble(parallel=True, block=block))
+            compare("ref-sum", again, f"IntegralForm.assemble[{doc['fieldkind']},{a['form']},after-worker-failure]")
+            log.count("assembled-again-after-failure")
             continue
         if exc is not None:
             raise Violation(PROP, "schedule-independence", f"parallel assembly raised {type(exc).__name__}: {exc} (pool size {p['n']}, order {p['order']})", site="IntegralForm.assemble.parallel")
@@ -617,6 +622,19 @@ def run_form(doc, log):
                     site="Form.assemble.parallel",
                     fault="thread_body",
                 )
+            # after the failure the same Form object assembles the sum again (serially and threaded)
+            c.fail_call = None
+            got2 = dense(frm.assemble(parallel=False, **akw))
+            ok, rel = close_exact_twin(got2, ref, rtol=1e-11, atol=1e-12 * scale)
+            if not ok:
+                raise Violation(PROP, "ref-sum", f"Form assembled again after a worker failure differs from the defining sum (rel {rel:.2e})", site=f"Form.assemble[{kind},after-worker-failure]", fault="thread_body")
+            sim2 = SimThreads(policy="random", rng=Streams(f["coef_seed"] + 7)["sched"], extra_codes=[w_.__code__ for w_ in wfs])
+            with sim2:
+                got3 = dense(frm.assemble(parallel=True, **akw))
+            ok, rel = close_exact_twin(got3, ref, rtol=1e-11, atol=1e-12 * scale)
+            if not ok or sim2.exceptions:
+                raise Violation(PROP, "ref-sum", f"Form assembled again (threaded) after a worker failure differs from the defining sum (rel {rel:.2e})", site=f"Form.assemble[{kind},after-worker-failure]", fault="thread_body")
+            log.count("assembled-again-after-failure")
             continue
         if exc is not None:
             raise Violation(PROP, "schedule-independence", f"{site_p} raised {type(exc).__name__}: {exc} under schedule {sc}", site=site_p)
